@@ -113,7 +113,7 @@ if bad:
 
 def main():
     run = Run("C16", level="other")
-    interp = Interp(interpret_prefixes=("rpyc.utils.server",))
+    interp = Interp(interpret_prefixes=("rpyc.utils.server",), loop_bound=2000)
     thorough = run.tier == "thorough"
     run.assumptions = [
         "environment model (props/srv_world.py); misbehaving clients: absurd length field / corrupt compressed data / undecodable payload / truncated header "
